@@ -53,8 +53,40 @@ def build(variant):
 # --------------------------------------------------------------------------
 # harness
 
-def run_kvdrive(script_text, wd, name, variant="rel", env=None, timeout=120, taskset=None, stdin_bytes=None, leaks=False):
-    """returns (trace_path, returncode, stderr_tail). returncode 124 = timeout"""
+def _cut_to_complete_lines(tp):
+    """a killed run can leave a half-written last event: keep only complete lines"""
+    try:
+        with open(tp, "rb+") as f:
+            data = f.read()
+            k = data.rfind(b"\n")
+            if k + 1 != len(data):
+                f.seek(0)
+                f.truncate(k + 1 if k >= 0 else 0)
+    except OSError:
+        pass
+
+
+def run_kvdrive(script_text, wd, name, variant="rel", env=None, timeout=120, taskset=None, stdin_bytes=None, leaks=False, hang_is_verdict=False):
+    """returns (trace_path, returncode, stderr_tail). returncode 124 = timeout.
+    A timeout is a statement about the machine as much as about kalign: unless the caller judges hangs itself
+    (C05, hang_is_verdict), a timed-out run is repeated once alone (machine-wide lock) with three times the
+    budget, and if it still does not finish the check is inconclusive (Broken, exit 2), not a violation."""
+    tp, rc, err = _run_kvdrive_once(script_text, wd, name, variant, env, timeout, taskset, stdin_bytes, leaks)
+    if rc == 124 and hang_is_verdict is not True:
+        import fcntl
+        os.makedirs(os.path.join(ROOT, "work"), exist_ok=True)
+        with open(os.path.join(ROOT, "work", ".alone.lock"), "w") as lk:
+            fcntl.flock(lk, fcntl.LOCK_EX)
+            tp, rc, err = _run_kvdrive_once(script_text, wd, name, variant, env, 3 * timeout, taskset, stdin_bytes, leaks)
+        if rc == 124 and hang_is_verdict == "retry":
+            return tp, rc, err
+        if rc == 124:
+            raise Broken("kvdrive did not finish within %ss even when repeated alone (%s): no verdict for this property; hangs are judged by C05" % (3 * timeout, os.path.join(wd, name + ".kv")))
+        sys.stdout.write("NOTE: a run that timed out under load finished when repeated alone (%s)\n" % os.path.join(wd, name + ".kv"))
+    return tp, rc, err
+
+
+def _run_kvdrive_once(script_text, wd, name, variant, env, timeout, taskset, stdin_bytes, leaks):
     bdir = build(variant)
     sp = os.path.join(wd, name + ".kv")
     tp = os.path.join(wd, name + ".ndjson")
@@ -75,8 +107,11 @@ def run_kvdrive(script_text, wd, name, variant="rel", env=None, timeout=120, tas
             p = subprocess.run(cmd, stdin=subprocess.DEVNULL, stdout=subprocess.PIPE, stderr=subprocess.PIPE, timeout=timeout, env=e)
         else:
             p = subprocess.run(cmd, input=stdin_bytes, stdout=subprocess.PIPE, stderr=subprocess.PIPE, timeout=timeout, env=e)
+        if p.returncode != 0:
+            _cut_to_complete_lines(tp)
         return tp, p.returncode, p.stderr.decode("utf-8", "replace")[-6000:]
     except subprocess.TimeoutExpired:
+        _cut_to_complete_lines(tp)
         return tp, 124, "timeout after %ss" % timeout
 
 
